@@ -368,6 +368,9 @@ func runC16(cfg *Config) *Report {
 				slice[j] = genSExpr16(r, r.Intn(3), exotic)
 			}
 		}
+		// values have a life before they are compared: some of them have been printed (String, GoString, %v), others have not;
+		// comparing, Equal and sorting are functions of the value, not of what was done with it
+		useMask := r.Intn(16)
 		if cfg.Only >= 0 && cfg.Only != i {
 			cf.add("CSort [] []") // keep indices aligned
 			rep.CaseDesc = append(rep.CaseDesc, "")
@@ -375,6 +378,27 @@ func runC16(cfg *Config) *Report {
 			continue
 		}
 		rep.Evaluations++
+		use16 := func(v *ast.SExpr) {
+			defer func() { recover() }() // exotic structs may not be printable; that is not what is observed here
+			_ = v.String()
+			_ = fmt.Sprintf("%v %#v", v, v)
+		}
+		if useMask&1 != 0 {
+			use16(x)
+		}
+		if useMask&2 != 0 {
+			use16(z)
+		}
+		if useMask&4 != 0 {
+			for j := range slice {
+				if j%2 == 0 {
+					use16(slice[j])
+				}
+			}
+		}
+		if useMask != 0 {
+			rep.hist("some of the values were printed before the comparison")
+		}
 		if k, d := orderLaws16(subterms16(append([]*ast.SExpr{x, y, z}, slice...), 14)); k != "" {
 			rep.violate(i, k, d, "order law fails on sub-expressions of case "+fmt.Sprint(i))
 		}
